@@ -101,6 +101,9 @@ def build_unit(sidecar_path, sources, variant=None):
     u.props = sc.get("properties", [])
     rules = sc.get("rewrites", [])
     default_src = sc.get("source", "expanded")
+    if sc.get("compose"):
+        for f in sc.get("fn", []) + sc.get("arm", []) + sc.get("closure_fn", []):
+            f.setdefault("compose", True)
 
     head = ["use vstd::prelude::*;"] + sc.get("uses", [])
     u.add(Chunk("uses", "#![allow(unused_imports, unused_variables, unused_mut, dead_code, unused_parens, unused_braces, unreachable_code, non_snake_case, unused_assignments, unreachable_patterns)]\n" + "\n".join(head) + "\nverus! {\n"))
